@@ -521,18 +521,28 @@ fn offer(s: &mut Suite, origin: &str, der: &[u8], tie_model: bool) -> Option<Cer
 		// the model takes the third-party verifier's verdict as a parameter: x509-parser picks the
 		// scheme from the signature identifier and runs it on the key bits (rcgen adds P-521 under
 		// aws-lc-rs, for which the independent oracle's verdict stands in)
-		let parsed_by_third_party = {
+		// the third-party verifier's answer: ok, "unsupported algorithm", or any other failure
+		let tp_verdict: Option<&str> = {
 			use x509_parser::prelude::FromDer;
-			x509_parser::certification_request::X509CertificationRequest::from_der(der).map(|(_, c)| c.verify_signature().is_ok()).ok()
+			x509_parser::certification_request::X509CertificationRequest::from_der(der).ok().map(|(_, c)| match c.verify_signature() {
+				Ok(()) => "ok",
+				Err(x509_parser::error::X509Error::SignatureUnsupportedAlgorithm) => "unsupported",
+				Err(_) => "failed",
+			})
 		};
-		// rcgen's own verification (aws-lc-rs) covers exactly one case the third-party verifier
-		// lacks: a key labelled secp521r1 under ecdsa-with-SHA512
-		let p521_sha512 = fields.as_ref().map(|f| {
-			let has = |hay: &[u8], needle: &[u8]| hay.windows(needle.len()).any(|w| w == needle);
-			has(&f.spki_alg, &[0x06, 0x05, 0x2b, 0x81, 0x04, 0x00, 0x23]) && has(&f.sig_alg, &[0x06, 0x08, 0x2a, 0x86, 0x48, 0xce, 0x3d, 0x04, 0x03, 0x04])
+		let parsed_by_third_party = tp_verdict.map(|v| v == "ok");
+		// the back end's own P-521 / SHA-512 verification of the key octets as they stand (whatever
+		// curve the SubjectPublicKeyInfo names): OpenSSL on a secp521r1 key built from those octets
+		let own_p521 = fields.as_ref().map(|f| {
+			let Ok(g) = openssl::ec::EcGroup::from_curve_name(openssl::nid::Nid::SECP521R1) else { return false };
+			let mut bn = openssl::bn::BigNumContext::new().unwrap();
+			let Ok(pt) = openssl::ec::EcPoint::from_bytes(&g, &f.key_bits, &mut bn) else { return false };
+			let Ok(ec) = openssl::ec::EcKey::from_public_key(&g, &pt) else { return false };
+			let Ok(pk) = PKey::from_ec_key(ec) else { return false };
+			let Ok(mut v) = openssl::sign::Verifier::new(MessageDigest::sha512(), &pk) else { return false };
+			v.update(&f.info).is_ok() && v.verify(&f.sig).unwrap_or(false)
 		}).unwrap_or(false);
-		let third_party = parsed_by_third_party.unwrap_or(false) || (cfg!(feature = "aws") && p521_sha512 && verified == Some(true));
-		let line = format!("parse-csr {} {} {} {}", cfg_name(), cfg!(feature = "aws"), third_party, hex(der));
+		let line = format!("parse-csr {} {} {} {} {}", cfg_name(), cfg!(feature = "aws"), tp_verdict.unwrap_or("failed"), own_p521, hex(der));
 		let model = s.drv.ask(&line);
 		s.rep.distinct.insert(crate::report::hash_str(&line));
 		if s.rep.samples.len() < 4 {
